@@ -126,8 +126,16 @@ def _frame_image(rng, files, exp, idx, unit, x="1cm", y="1cm", reuse=None):
     name = f"Pictures/img{idx}{ext}" if reuse is None else reuse["name"]
     im["name"] = name
     files[name] = im["data"]
-    exp.images.append({"sha": im["sha"], "ctype": im["ctype"], "w": None, "h": None, "unit": unit})
-    return (f'<draw:frame draw:name="Image{idx}" svg:x="{x}" svg:y="{y}" svg:width="2cm" svg:height="2cm"><draw:image xlink:href="{name}" xlink:type="simple"/></draw:frame>', im)
+    # the frame's size in any of the ODF length units; the reported pixel size is that length at 96 dpi (quarter inches: exact in every unit)
+    srng = random.Random(f"odf-frame-size:{idx}:{im['sha'][:6]}:{unit}")
+    kw, kh = srng.randint(1, 12), srng.randint(1, 12)
+    u = srng.choice(["cm", "cm", "cm", "in", "mm", "pt", "pc"])
+    per_quarter_inch = {"cm": 0.635, "in": 0.25, "mm": 6.35, "pt": 18, "pc": 1.5}[u]
+
+    def length(k):
+        return f"{round(k * per_quarter_inch, 3):g}{u}"
+    exp.images.append({"sha": im["sha"], "ctype": im["ctype"], "w": 24 * kw, "h": 24 * kh, "unit": unit})
+    return (f'<draw:frame draw:name="Image{idx}" svg:x="{x}" svg:y="{y}" svg:width="{length(kw)}" svg:height="{length(kh)}"><draw:image xlink:href="{name}" xlink:type="simple"/></draw:frame>', im)
 
 
 # ============================================================================================= ODT
